@@ -31,6 +31,7 @@ func init() {
 			{Name: "double-walk-BinaryExpr.X", File: "ast/walk.go", Old: "Walk(v, n.X)\n\t\tWalk(v, n.Y)", New: "Walk(v, n.X)\n\t\tWalk(v, n.X)\n\t\tWalk(v, n.Y)", Expect: "walk-field/BinaryExpr.X"},
 			{Name: "swap-order-KeyValueExpr", File: "ast/walk.go", Old: "Walk(v, n.Key)\n\t\tWalk(v, n.Value)\n\n\t// Types", New: "Walk(v, n.Value)\n\t\tWalk(v, n.Key)\n\n\t// Types", Expect: "walk-order/KeyValueExpr"},
 			{Name: "drop-nilguard-IfStmt.Else", File: "ast/walk.go", Old: "if n.Else != nil {\n\t\t\tWalk(v, n.Else)\n\t\t}", New: "Walk(v, n.Else)", Expect: "walk-nilguard/IfStmt.Else"},
+			{Name: "else-walked-only-with-init", File: "ast/walk.go", Old: "\t\tWalk(v, n.Body)\n\t\tif n.Else != nil {\n\t\t\tWalk(v, n.Else)\n\t\t}", New: "\t\tWalk(v, n.Body)\n\t\tif n.Else != nil && n.Init != nil {\n\t\t\tWalk(v, n.Else)\n\t\t}", Expect: "walk-operand-path/Walk:IfStmt.Else"},
 			{Name: "drop-visit-nil", File: "ast/walk.go", Old: "\tv.Visit(nil)\n}", New: "}", Expect: "walk-post/Visit(nil)"},
 			{Name: "early-return-in-case", File: "ast/walk.go", Old: "case *ParenExpr:\n\t\tWalk(v, n.X)", New: "case *ParenExpr:\n\t\tWalk(v, n.X)\n\t\treturn", Expect: "walk-post/Visit(nil)"},
 			{Name: "drop-case-EnvExpr", File: "ast/walk.go", Old: "\tcase *EnvExpr:\n\t\tWalk(v, n.Name)\n", New: "", Expect: "walk-case/EnvExpr"},
@@ -53,6 +54,15 @@ var walkGuards = map[string]string{
 	"FuncDecl.Recv": "!n.Shadow",
 	"FuncDecl.Name": "!n.Shadow",
 	"FuncDecl.Type": "!n.Shadow",
+}
+
+// c18OperandReviewed: cases of Walk in which a flag of the node, not a nil test, decides that a child is not visited.
+var c18OperandReviewed = map[string]string{
+	"Walk:File.Name":     "NoPkgDecl: the file has no package clause and Name is the synthetic `main` the parser filled in, not source",
+	"Walk:FuncDecl.Doc":  "Shadow: the synthetic main/init entry of a file with top-level statements has no header in the source; only its body (the statements) is",
+	"Walk:FuncDecl.Recv": "Shadow entry (see Doc)",
+	"Walk:FuncDecl.Name": "Shadow entry (see Doc)",
+	"Walk:FuncDecl.Type": "Shadow entry (see Doc)",
 }
 
 type walkTarget struct {
@@ -112,6 +122,10 @@ func runC18(c *core.Check) {
 	universe := implementers(pk, node)
 	c.Analysed("node_universe", len(universe))
 	c.Floor("walk-case", 68)
+	nOC, nOO := opCoverCases(c, pk, "walk-operand-path", func(fd *ast.FuncDecl) bool { return fd.Name.Name == "Walk" }, c18OperandReviewed)
+	c.Floor("walk-operand-path", 100)
+	c.Analysed("walk_operand_path_cases", nOC)
+	c.Analysed("walk_operand_path_operands", nOO)
 	c.Floor("walk-field", 120)
 	c.Exhaustive()
 
